@@ -199,7 +199,7 @@ class WireMonitor(object):
             if isinstance(res, tuple):
                 ok = bool(res[0])
             self.writes.append({"caller": caller, "callee": callee, "si": args[0], "secrets": args[1], "tw": args[2],
-                                "ok": ok, "n": R.events, "err": isinstance(res, Failure)})
+                                "ok": ok, "n": R.events, "err": isinstance(res, Failure), "res": res})
 
     def check_secrets(self, writekey_by_si):
         """C17: write enabler and lease secrets on the wire == independent derivation."""
@@ -725,10 +725,27 @@ class ReadvMonitor(WireMonitor):
                     for b in lst:
                         if isinstance(b, bytes) and len(b) >= 9 and b[0] in (0, 1):
                             seqs.append(struct.unpack(">Q", b[1:9])[0])
-        self.answers.append({"caller": caller, "callee": callee, "method": methname, "ok": ok, "seqs": seqs, "n": R.events})
+        heads = {}
+        if ok and isinstance(data, dict):
+            for shnum, lst in data.items():
+                if lst and isinstance(lst[0], bytes):
+                    heads[shnum] = lst[0][:41]
+        self.answers.append({"caller": caller, "callee": callee, "method": methname, "ok": ok, "seqs": seqs, "n": R.events,
+                             "heads": heads, "whole": ok and isinstance(data, dict)})
 
     def on_call(self, caller, callee, methname, args, kwargs, res):
         WireMonitor.on_call(self, caller, callee, methname, args, kwargs, res)
+        # what the server showed this caller about each share (first 41 bytes = version, sequence number, root hash), for
+        # calls whose first read vector starts at offset 0
+        if methname in ("slot_readv", "slot_testv_and_readv_and_writev") and not isinstance(res, Failure):
+            readv = args[2] if methname == "slot_readv" else args[3]
+            data = res if methname == "slot_readv" else (res[1] if isinstance(res, tuple) and len(res) > 1 else None)
+            if readv and readv[0][0] == 0 and readv[0][1] >= 41 and isinstance(data, dict):
+                if not hasattr(self, "shown"):
+                    self.shown = []
+                self.shown.append({"caller": caller, "callee": callee, "si": args[0], "n": R.events,
+                                   "filtered": bool(args[1]) if methname == "slot_readv" else False,
+                                   "heads": {shnum: lst[0][:41] for shnum, lst in data.items() if lst and isinstance(lst[0], bytes) and len(lst[0]) >= 41}})
         if methname == "slot_readv":
             self.readvs.append({"caller": caller, "callee": callee, "ok": not isinstance(res, Failure), "n": R.events})
 
@@ -1027,6 +1044,8 @@ def gen_concurrent(seed, tier, focus="C12"):
         ops.append(["write", wi, ch.pick(W, ("kind", wi), ["overwrite", "overwrite", "modify"]), ch.pick(W, ("size", wi), sz[1:]),
                     ch.randint(W, ("pat", wi), 1, 1 << 30), ch.pick(W, ("start", wi), [0.0, 0.0, 0.001, 0.05, 0.3, 1.0])])
     cfg["net"]["jitter"] = ch.pick("config", "jitter2", [0.05, 0.5, 0.5])
+    # shares lost before the writers start (a server lost its disk but stays up): both writers will want to re-create them
+    cfg["lost"] = sorted(ch.sample("faults", "lost", range(cfg["n"]), ch.pick("faults", "nlost", [0, 0, 1, 1, 2])))
     return {"engine": "mutsim", "profile": "concurrent", "focus": "C12", "seed": seed, "cfg": cfg, "ops": ops, "faults": []}
 
 
@@ -1058,6 +1077,11 @@ def exec_concurrent(case):
         cap = node0.get_uri()
         si = si_of_cap(cap)
         contents = {0: data0}
+        for shn_ in cfg.get("lost", []):
+            for s_ in g.servers:
+                if shn_ in s_.shares_of(si):
+                    os.unlink(s_.share_path(si, shn_))
+                    probe("share-lost-before-race")
         writers = []
         results = {}
         wops = [op for op in case["ops"] if op[0] == "write"]
@@ -1091,6 +1115,49 @@ def exec_concurrent(case):
             return finish(g, viol, probes, case, ("C12",))
         state = disk_state(g.servers, si)
         vers = versions_on_disk(state)
+        # (a) server-side ground truth: a test-and-set write is applied only on top of the share state the writer had last
+        # been shown by that server (or on a share that did not exist and that the writer had been shown to be absent);
+        # the pre-write state is what the server returns in the same call's read vector
+        for wv in mon.writes:
+            if wv["si"] != si or wv["ok"] is not True or not isinstance(wv.get("res"), tuple):
+                continue
+            pre = wv["res"][1] if len(wv["res"]) > 1 and isinstance(wv["res"][1], dict) else {}
+            # what this writer knows about the shares on this server, in server-side order: answers it was given (an
+            # answer lists every share the server holds, the read vector applies to all of them) and its own applied writes.
+            # (Generation order on the server is what matters: share state only moves forward, so an answer produced
+            # earlier can never show a newer state than the one this write was applied on.)
+            timeline = []
+            for a_ in getattr(mon, "shown", []):
+                if a_["caller"] == wv["caller"] and a_["callee"] == wv["callee"] and a_["n"] < wv["n"] and a_["si"] == si:
+                    timeline.append((a_["n"], 0, "shown", a_["heads"], a_.get("filtered")))
+            for w2 in mon.writes:
+                if w2["caller"] == wv["caller"] and w2["callee"] == wv["callee"] and w2["n"] < wv["n"] and w2["ok"] is True and w2["si"] == si:
+                    own = {}
+                    for shnum, (testv, writev, newlen) in w2["tw"].items():
+                        for (woff, wdata) in writev:
+                            if woff == 0 and len(wdata) >= 41 and wdata[0] in (0, 1):
+                                own[shnum] = bytes(wdata[:41])
+                    timeline.append((w2["n"], 1, "own", own, None))
+            seen = {}
+            for (n_, _o, what_, heads_, filtered_) in sorted(timeline, key=lambda t: (t[0], t[1])):
+                if what_ == "shown" and not filtered_:
+                    seen = dict(heads_)
+                else:
+                    seen.update(heads_)
+            for shnum, (testv, writev, newlen) in wv["tw"].items():
+                if not writev:
+                    continue
+                before_ = pre.get(shnum)
+                before_head = before_[0][:41] if before_ and isinstance(before_[0], bytes) and before_[0] else None
+                if before_head is None:
+                    continue            # the share did not exist: creating it is allowed
+                probe("applied-write-checked")
+                if seen.get(shnum) != before_head:
+                    bad("write-applied-on-unseen-state", "%s's write to share %d on %s was applied although the share there (seq %d) is not what "
+                        "that writer had last been shown by this server (%s)" % (
+                            wv["caller"], shnum, wv["callee"], struct.unpack(">Q", before_head[1:9])[0],
+                            ("seq %d" % struct.unpack(">Q", seen[shnum][1:9])[0]) if shnum in seen else "no such share"))
+                    break
         # (b) per writer: refused writes must not end in silent success
         by_writer = {}
         for wv in mon.writes:
